@@ -192,8 +192,12 @@ where
     let Some(outs) = parse_outs(outs, prog.len()) else { return bad_case() };
     let Some(Ins::Var(x0)) = prog.get(seed).cloned() else { return bad_case() };
     let mut canonical: Option<Vec<(T, T)>> = None;
+    let plain = run_plain::<T>(&prog);
     for mode in 0..6u8 {
         let nodes = run_traces::<T>(&prog, seed, Trace::variable(x0.clone()), mode);
+        if !nodes.iter().zip(plain.iter()).all(|(t, p)| t.number == *p) {
+            return inconsistent(250);
+        }
         let obs: Vec<(T, T)> = outs.iter().map(|&o| (nodes[o].number.clone(), nodes[o].derivative.clone())).collect();
         match &canonical {
             None => canonical = Some(obs),
